@@ -328,7 +328,11 @@ def main():
     rc = 0
     replay_path = None
     lines_out = []
+    seen_known = set()
     for (k, e) in known_hits:
+        if k['obligation'] in seen_known:
+            continue
+        seen_known.add(k['obligation'])
         lines_out.append('KNOWN-FINDING: property=%s %s [%s]' % (prop, k['what'], k['obligation']))
     # listed findings that no longer fail are simply not printed
     if violations:
@@ -395,7 +399,7 @@ def main():
     for l in lines_out:
         print(l)
     print('%s tier=%s obligations=%d discharged=%d known=%d undecided=%d violations=%d wall=%.1fs' % (
-        prop, tier, obligations, discharged, len(known_hits), len(undecided), len(violations), wall))
+        prop, tier, obligations, discharged, len(seen_known), len(undecided), len(violations), wall))
     if obligations == 0 and rc == 0:
         print('UNDECIDED: zero obligations generated')
         rc = 2
